@@ -23,7 +23,7 @@ var CfgC01 = reg(&MachineCfg{
 			opt.AolGenesis = g.genAolGenesis(app.MakeEncodingConfig().Codec, false)
 		}
 	},
-	Gens: []interface{}{"aol", 60, "commit", 14, "crash", 4, "restart", 4, "export", 5, "bank", 2, "authz", 3, "did", 2, "pnft", 2, "sim_aol", 4},
+	Gens: []interface{}{"aol", 60, "commit", 14, "crash", 4, "restart", 4, "export", 5, "bank", 2, "authz", 3, "did", 2, "pnft", 2, "sim_aol", 4, "reads", 4},
 	Bias: map[string]int{"right-signers": 88, "exec": 6, "multi": 6, "group": 12},
 	Rule: "rapid state machine over signed txs through DeliverTx/Commit/Query: create-topic/add-writer/delete-writer/add-record by listed, delisted and foreign accounts on prefix-colliding topic names, plus crash, restart and genesis export/import; non-trivial = at least one record acknowledged and afterwards at least one of {its writer removed, restart/crash, export/import, second topic}; distinct = distinct sequence of (step kind, message types, outcome class)",
 	NonTrivial: func(w *world.World) bool {
@@ -41,7 +41,7 @@ var CfgC02 = reg(&MachineCfg{
 			opt.AolGenesis = g.genAolGenesis(app.MakeEncodingConfig().Codec, true)
 		}
 	},
-	Gens: []interface{}{"aol", 62, "commit", 12, "authz", 12, "crash", 2, "restart", 2, "export", 3, "bank", 2, "pnft", 2, "sim_aol", 6},
+	Gens: []interface{}{"aol", 62, "commit", 12, "authz", 12, "crash", 2, "restart", 2, "export", 3, "bank", 2, "pnft", 2, "sim_aol", 6, "reads", 3},
 	Bias: map[string]int{"right-signers": 55, "exec": 22, "fee-payer": 40, "multi": 24, "tamper": 8, "group": 12},
 	Rule: "same machine with independently chosen signer sets (right, other account, swapped, dropped, garbage signature, wrong sequence, extra), sign modes direct/amino-json/direct-aux, named fee payers and authz grant/revoke/exec; oracle = transition validity on the aol store diff of every DeliverTx; non-trivial = at least one refused AOL attempt and at least one accepted writer-list change or append",
 	NonTrivial: func(w *world.World) bool {
@@ -56,7 +56,7 @@ var CfgC13 = reg(&MachineCfg{
 			opt.AolGenesis = g.genAolGenesis(app.MakeEncodingConfig().Codec, false)
 		}
 	},
-	Gens: []interface{}{"aol", 68, "commit", 18, "crash", 3, "export", 4, "bank", 2, "walks", 3, "sim_aol", 2},
+	Gens: []interface{}{"aol", 68, "commit", 18, "crash", 3, "export", 4, "bank", 2, "walks", 3, "sim_aol", 2, "reads", 3},
 	Bias: map[string]int{"right-signers": 94, "exec": 3, "multi": 10, "aol-owners": 2, "aol-create": 4, "aol-delw": 3, "aol-rec": 6, "big-listing": 12, "group": 15, "group-actor": 18},
 	Rule: "AOL machine on prefix-related topic names; after every commit the owner/topic counters (store and query) and complete paging walks (key- and offset-style, limits 0/1/2/3/n±1/huge, forward and reverse, with and without count_total) are compared with the model; non-trivial = an owner with >=3 topics, a writer deleted, and a multi-page walk",
 	NonTrivial: func(w *world.World) bool {
@@ -156,7 +156,7 @@ var CfgC06 = reg(&MachineCfg{
 			opt.PnftGenesis = g.genPnftGenesis(app.MakeEncodingConfig().Codec, false)
 		}
 	},
-	Gens: []interface{}{"pnft", 66, "commit", 12, "authz", 10, "crash", 2, "restart", 2, "bank", 2, "export", 2, "sim_pnft", 5},
+	Gens: []interface{}{"pnft", 66, "commit", 12, "authz", 10, "crash", 2, "restart", 2, "bank", 2, "export", 2, "sim_pnft", 5, "reads", 4},
 	Bias: map[string]int{"right-signers": 68, "exec": 15, "pnft-handover": 5, "pnft-transfer": 6, "former-owner": 35, "tamper": 6, "group": 12},
 	Rule: "PNFT state machine: the seven message types with actors chosen independently of signers, hand-over chains, burn and re-mint, former owners and creators, ghost receivers, upper-case spellings, authz grant/exec; oracle = transition validity (actor is the current owner and stands behind the tx) + full decoded-store agreement after every DeliverTx; non-trivial = an ownership hand-over followed by a refused attempt of the former owner",
 	NonTrivial: func(w *world.World) bool {
@@ -171,7 +171,7 @@ var CfgC12 = reg(&MachineCfg{
 			opt.PnftGenesis = g.genPnftGenesis(app.MakeEncodingConfig().Codec, false)
 		}
 	},
-	Gens: []interface{}{"pnft", 73, "commit", 16, "crash", 2, "export", 3, "bank", 1, "walks", 2, "sim_pnft", 3},
+	Gens: []interface{}{"pnft", 73, "commit", 16, "crash", 2, "export", 3, "bank", 1, "walks", 2, "sim_pnft", 3, "reads", 4},
 	Bias: map[string]int{"right-signers": 95, "exec": 2, "adversarial-ids": 1, "by-owner": 90, "former-owner": 5, "pnft-transfer": 5, "group": 10},
 	Rule: "PNFT machine over adversarial identifiers (prefixes of one another, separators, invalid UTF-8, 300-byte ids, NUL while not excluded by an open finding); after every tx the decoded store equals the model, after every commit every single-item view and listing (tokens of denom, by owner, denoms paged, denoms by owner) is compared for all pool arguments; completeness: a fresh pair minted by the denom owner is accepted; non-trivial = >=2 denoms, >=3 tokens minted, a transfer and a burn",
 	NonTrivial: func(w *world.World) bool {
